@@ -27,12 +27,14 @@ def signature(d):
     k = d['kind']
     if k == 'query':
         return 'query|%s|real=%s|model=%s|%s' % (d['q'], _ans(d['real']), _ans(d['model']),
-                                                 d.get('pathclass'))
+                                                 d.get('diff') or d.get('pathclass'))
     if k in ('result', 'twin_result', 'model_mismatch', 'clean_result'):
         a = d.get('real') or d.get('model')
         b = d.get('model') if k != 'twin_result' else d.get('twin')
         if k == 'model_mismatch':
             a, b = d.get('model'), d.get('twin')
+        if d.get('cause'):
+            return '%s|%s|%s|cause:%s' % (k, _ans(a), _ans(b), d['cause'])
         return '%s|%s|%s' % (k, _ans(a), _ans(b))
     if k in ('tree', 'clean_tree', 'twin_tree'):
         df = d['diffs'][0]
